@@ -875,6 +875,33 @@ class KInterp:
         if isinstance(e, ast.ListComp) and len(e.generators) == 1 and isinstance(e.generators[0].iter, ast.Call) \
                 and U(e.generators[0].iter.func) == "range" and isinstance(e.generators[0].iter.args[0], ast.Constant):
             return [self.eval(e.elt, st) for _ in range(e.generators[0].iter.args[0].value)]
+        if isinstance(e, (ast.ListComp, ast.GeneratorExp)) and len(e.generators) == 1 and not e.generators[0].ifs:
+            # comprehension over a Python sequence known at analysis time (column constants, from_to_node_cols() ...): expanded
+            gen = e.generators[0]
+            seq = self.eval(gen.iter, st)
+            if isinstance(seq, PyVal) and isinstance(seq.v, (list, tuple)):
+                seq = self._lift_pyconst(list(seq.v))
+            if isinstance(seq, (list, tuple)):
+                out_ = []
+                saved = dict(st["env"])
+                try:
+                    for item in seq:
+                        if isinstance(gen.target, ast.Tuple):
+                            if not isinstance(item, (list, tuple)) or len(item) != len(gen.target.elts):
+                                raise Unsupported("unpacking in comprehension %s" % U(e)[:60])
+                            for tt, vv in zip(gen.target.elts, item):
+                                self.store(tt, vv, st, None)
+                        else:
+                            self.store(gen.target, item, st, None)
+                        out_.append(self.eval(e.elt, st))
+                finally:
+                    # comprehension variables do not leak
+                    for nm in [n.id for n in ast.walk(gen.target) if isinstance(n, ast.Name)]:
+                        if nm in saved:
+                            st["env"][nm] = saved[nm]
+                        else:
+                            st["env"].pop(nm, None)
+                return out_
         if isinstance(e, ast.Dict) and all(isinstance(k, ast.Constant) for k in e.keys):
             return PyVal({k.value: self.eval(v, st) for k, v in zip(e.keys, e.values)})
         if isinstance(e, ast.Starred):
@@ -1283,9 +1310,19 @@ class KInterp:
         if f == "hasattr":
             return PyVal(self.consts.get("hasattr:" + U(e.args[1]), True))
         if f in ("isinstance", "np.iterable", "numpy.iterable") and e.args:
-            key = ("isinstance:" if f == "isinstance" else "iterable:") + U(e.args[0])
+            pre = "isinstance:" if f == "isinstance" else "iterable:"
+            key = pre + U(e.args[0])
             if key in self.consts:
                 return PyVal(bool(self.consts[key]))
+            # the question is about the *value*: inside a helper the tested local stands for a parameter of the analysed function
+            try:
+                v_ = self.eval(e.args[0], st)
+            except Unsupported:
+                v_ = None
+            if isinstance(v_, GExpr) and v_.plain() is not None:
+                at_ = list(v_.plain().atoms())
+                if len(at_) == 1 and at_[0][0] == "sym" and len(at_[0]) == 2 and pre + str(at_[0][1]) in self.consts:
+                    return PyVal(bool(self.consts[pre + str(at_[0][1])]))
             raise Unsupported("%s(%s, ...) needs a configured answer" % (f, U(e.args[0])))
         if f in ("sum", "np.sum", "numpy.sum") and e.args and not (isinstance(e.args[0], ast.Name) and False):
             v_ = self.eval(e.args[0], st)
